@@ -56,6 +56,16 @@ CHECKS["C19"] = dict(
     note="SIGKILL models process death, not power loss (OS page cache assumed durable; synchronous level invisible). "
          "Kills inside a single SQLite statement are left to SQLite's own atomicity.")
 
+CHECKS["C08"] = dict(
+    category="exploration", design_ref="DESIGN.md 2/C08",
+    technique="PBT with in-flight manipulation of handshake answers; oracle = reference ntor-style key derivation from x, wire Y and the selected peer's static key",
+    text="Circuits of 1-3 hops are built by the real protocol while a grid of single manipulations (every manipulation kind x "
+         "every hop position) and Hypothesis-drawn combinations alter, substitute, swap, replay, duplicate, delay or drop the "
+         "plaintext created answers; every accepted hop must carry keys expanded from x.Y||x.B of the selected peer, "
+         "established hops must never change, the hop list must equal the originator's own selections.",
+    note="Trusted: X25519/HMAC/HKDF primitives. Removing only the identifier comparison or only the auth-tag check does not "
+         "violate the statement (keys stay bound to the selected peer via x.B) and is therefore not flagged.")
+
 PENDING = {}
 
 def main():
